@@ -257,15 +257,15 @@ Fixpoint normalize_modes_aux (cs : list ascii) (ps : list string) (modearg : nat
   end.
 Definition normalize_modes (m : imsg) : list modecmd :=
   match m_params m with
-  | _ :: modestr :: _ => normalize_modes_aux (list_of_string modestr) (m_params m) 2 true
+  | _ :: modestr :: _ => normalize_modes_aux (rune_leads modestr) (m_params m) 2 true
   | _ => []
   end.
 
-(* modeCmds.IRCParams *)
+(* modeCmds.IRCParams: string(mode.Mode[1]) of a BYTE is the encoding of U+00bb *)
 Definition irc_params (cmds : list modecmd) : list string :=
   let add := filter mc_add cmds in
   let rem := filter (fun c => negb (mc_add c)) cmds in
-  let chars l := string_of_list (map (fun c => chr (mc_char c)) l) in
+  let chars l := fold_right (fun c acc => go_string_of_byte (mc_char c) ++ acc) EmptyString l in
   let ps l := filter (fun p => negb (is_empty p)) (map mc_param l) in
   ((if Nat.ltb 0 (List.length add) then "+" ++ chars add else EmptyString) ++
    (if Nat.ltb 0 (List.length rem) then "-" ++ chars rem else EmptyString)) :: (ps add ++ ps rem)%list.
@@ -313,17 +313,22 @@ Definition re_match (pattern subject : string) : bool := re_search (re_tokens pa
 Definition banned (bans : list (string * string)) (userhost userhostAddr : string) : bool :=
   existsb (fun b => re_match (snd b) userhost || re_match (snd b) userhostAddr) bans.
 
-(* strconv.ParseInt(x, 0, 64) on "0x<hex digits>" (the only shape inside the modelled domain) *)
-Fixpoint parse_hex_aux (s : string) (acc : N) : option N :=
+(* strconv.ParseInt(x, 0, 64) on "0x…" (the text behind "robust/"): hex digits of either case; with base 0 Go also accepts
+   underscores that separate digits (one may follow the base prefix): [after_digit] is false right after an underscore *)
+Fixpoint parse_hex_aux (s : string) (acc : N) (after_digit : bool) : option N :=
   match s with
-  | EmptyString => Some acc
-  | String c r => match hex_val c with Some d => parse_hex_aux r (acc * 16 + d)%N | None => None end
+  | EmptyString => if after_digit then Some acc else None
+  | String c r =>
+      if Ascii.eqb c "_"%char then (if after_digit then parse_hex_aux r acc false else None)
+      else match hex_val c with Some d => parse_hex_aux r (acc * 16 + d)%N true | None => None end
   end.
+Fixpoint has_hex_digit (s : string) : bool :=
+  match s with EmptyString => false | String c r => match hex_val c with Some _ => true | None => has_hex_digit r end end.
 Definition parse_0x (s : string) : option N :=
   match s with
   | String "0"%char (String "x"%char r) =>
-      if is_empty r then None else
-      match parse_hex_aux r 0%N with
+      if negb (has_hex_digit r) then None else
+      match parse_hex_aux r 0%N true with
       | Some n => if (n <? 9223372036854775808)%N then Some n else None
       | None => None
       end
@@ -403,7 +408,7 @@ Definition cmd_mode_chan_step (k : skey) (lc channelname : string) (isChanOp : b
          let pattern := replace_all "\*" ".*" (quote_meta (mc_param mode)) in
          let patternAddr := resolve_remote sv pattern in
          updChan lc (cc_bans (ban_both newvalue (mc_param mode) pattern patternAddr))
-       else reply_num k "472" [s_nick s; String (chr char) EmptyString; "is unknown mode char to me"]) ;;;
+       else reply_num k "472" [s_nick s; go_string_of_byte char; "is unknown mode char to me"]) ;;;
       retM (false, false)
   else
     (* query: "+b" without parameter *)
